@@ -91,6 +91,15 @@ func (in *Interp) deepEq(a, b Value) *Term {
 			return False
 		}
 		return in.deepEq(x.V, y.V)
+	case Dec:
+		y, ok := b.(Dec)
+		if !ok || (x.T == nil) != (y.T == nil) {
+			return False
+		}
+		if x.T == nil {
+			return True
+		}
+		return Eq(x.T, y.T)
 	case BigInt:
 		y, ok := b.(BigInt)
 		if !ok || (x.T == nil) != (y.T == nil) {
